@@ -13,8 +13,18 @@ abbreviations: '--foo' never means '--foobar'.  The trace compared is the
 sequence of (label reached, optarg at GETOPT_OPTARG labels) and the final
 optind.
 
-Driver: six tables compiled in through the real macros (harness/
-c18_getopt.c).  Every vector is parsed after `optreset = 1` following another
+Driver: fourteen tables compiled in through the real macros (harness/
+c18_getopt.c).  The library indexes its option table by the source line of
+each label relative to GETOPT_SWITCH, so the LAYOUT of a table is part of the
+configuration: tables 0-5 have one statement block per label, tables 6-13 are
+compact layouts which put labels into the boundary slots (slot 0 = the
+GETOPT_SWITCH line, the line directly above GETOPT_DEFAULT, labels on
+consecutive lines sharing a statement or falling through into the default
+block, GETOPT_MISSING_ARG first / in the middle / last / absent, a table of
+zero slots, one slot, 702 slots).  A block shared by several labels records
+what a program can observe there: the string GETOPT returned, optarg and
+optind.  The number of warning lines written to stderr is compared too.
+Every vector is parsed after `optreset = 1` following another
 vector (other table, possibly abandoned in the middle of a pack, its argv
 freed), and a sample again as the first parse of a fresh process; both must
 equal the model.
@@ -27,15 +37,58 @@ from . import core
 
 SRCS = ['util/getopt.c']
 
-# (options: name -> takes an argument, has GETOPT_MISSING_ARG); must stay in
-# step with harness/c18_getopt.c.
+# Must stay in step with harness/c18_getopt.c.
+#   opts:    name -> takes an argument
+#   missing: the table has a GETOPT_MISSING_ARG label
+#   rich:    the GETOPT_DEFAULT block (and a separate GETOPT_MISSING_ARG block)
+#            records (ch, optarg, optind) instead of just "?" / ":"
+#   tail:    options whose label falls through into the GETOPT_DEFAULT block
+#   mtail:   GETOPT_MISSING_ARG falls through into the GETOPT_DEFAULT block
+#   layout:  where the labels are (slot = source line - line of GETOPT_SWITCH)
+class Table(object):
+    def __init__(self, opts, missing, rich=False, tail=(), mtail=False, layout=''):
+        self.opts = opts
+        self.missing = missing
+        self.rich = rich
+        self.tail = frozenset(tail)
+        self.mtail = mtail
+        self.layout = layout
+        assert all(t in opts for t in self.tail)
+        assert rich or not (self.tail or mtail)
+
+
 TABLES = [
-    ({'-b': 0, '--bar': 0, '-f': 1, '--foo': 1}, False),
-    ({'-a': 0, '-b': 0, '-c': 1, '--long': 0, '--arg': 1}, True),
-    ({'--foo': 1, '--foobar': 0, '--fo': 0, '--f': 1, '-o': 1, '-f': 0}, True),
-    ({'-x': 1, '-y': 1, '-z': 0, '-Z': 0, '--zed': 0}, False),
-    ({'--key': 1, '--key-file': 1, '--k': 0, '-k': 0}, True),
-    ({}, False),
+    Table({'-b': 0, '--bar': 0, '-f': 1, '--foo': 1}, False, layout='one block per label'),
+    Table({'-a': 0, '-b': 0, '-c': 1, '--long': 0, '--arg': 1}, True,
+          layout='one block per label, MISSING_ARG block last'),
+    Table({'--foo': 1, '--foobar': 0, '--fo': 0, '--f': 1, '-o': 1, '-f': 0}, True,
+          layout='one block per label, MISSING_ARG block last'),
+    Table({'-x': 1, '-y': 1, '-z': 0, '-Z': 0, '--zed': 0}, False, layout='one block per label'),
+    Table({'--key': 1, '--key-file': 1, '--k': 0, '-k': 0}, True,
+          layout='one block per label, MISSING_ARG block first'),
+    Table({}, False, layout='DEFAULT only (1 empty slot)'),
+    # --- compact layouts -------------------------------------------------
+    Table({'-a': 0, '--all': 0, '-n': 0, '-x': 1, '--xlong': 1}, False, rich=True,
+          tail=('-x', '--xlong'),
+          layout='slots 1,2 share a statement; 5; OPTARG labels in the last two slots (8,9 of 10) '
+                 'fall into DEFAULT'),
+    Table({'-o': 1, '--out': 1, '--help': 0, '-h': 0}, False, rich=True, tail=('--help', '-h'),
+          layout='slots 1,2 share a statement; OPT labels in the last two slots fall into DEFAULT '
+                 '(short one last: "-h falls into usage()")'),
+    Table({'--num': 1, '-n': 1, '-V': 0, '--version': 0}, True, rich=True, tail=('-V', '--version'),
+          layout='MISSING_ARG in slot 1; OPT labels in the last two slots fall into DEFAULT (long one last)'),
+    Table({'-s': 1, '--size': 1, '-t': 0}, True, rich=True, tail=('--size',), mtail=True,
+          layout='label in slot 0 (on the GETOPT_SWITCH line); OPTARG, MISSING_ARG in the last two '
+                 'slots, both fall into DEFAULT'),
+    Table({'-a': 0, '-m': 1, '--mid': 0, '--max': 1, '-z': 1, '--zz': 1}, False, rich=True,
+          tail=('-z', '--zz'),
+          layout='702 slots: labels in 1, 255+256 (shared statement), 259, and 700, 701 (fall into DEFAULT)'),
+    Table({}, False, rich=True, layout='whole switch on one line: zero slots'),
+    Table({'-x': 1}, False, rich=True, tail=('-x',),
+          layout='one slot: OPTARG label in slot 0 = last slot, falls into DEFAULT'),
+    Table({'-r': 0, '--in': 1, '-i': 1, '--raw': 0}, True, rich=True,
+          layout='one line per label with its own statement: slot 1 empty, -r, MISSING_ARG, --in, -i, '
+                 '--raw in the last slot'),
 ]
 
 
@@ -49,13 +102,24 @@ def sig(*a):
 
 def model(tid, args, limit=-1):
     """args: the arguments after argv[0].  -> (events, optind, flags)
-    event = (label, optarg|None)."""
-    opts, has_missing = TABLES[tid]
-    miss = ':' if has_missing else '?'
+    event = (kind, name, optarg|None, ch, optind) where kind is 'opt' (the
+    label of the registered option `name` is reached), 'unknown', 'unwanted'
+    (=value given to an option which takes none) or 'missing'; ch is the
+    string GETOPT returns and optind its value when the label is reached."""
+    T = TABLES[tid]
+    opts = T.opts
     ev = []
     flags = set()
     i = 0
     n = len(args)
+
+    def emit(kind, name, arg, ch, optind):
+        ev.append((kind, name, arg, ch, optind))
+        if kind != 'opt':
+            flags.add(kind)
+        elif name in T.tail:
+            flags.add('tailopt')
+
     while i < n:
         a = args[i]
         if a == '--':
@@ -69,24 +133,21 @@ def model(tid, args, limit=-1):
             i += 1
             name, eq, val = a.partition('=')
             if name not in opts:
-                ev.append(('?', None))
-                flags.add('unknown')
+                emit('unknown', None, None, a, i + 1)
             elif opts[name]:
                 if eq:
-                    ev.append((name, val))
+                    emit('opt', name, val, name, i + 1)
                     flags.add('eqarg')
                 elif i < n:
-                    ev.append((name, args[i]))
                     flags.add('nextarg:' + ('opt' if args[i].startswith('-') else 'plain'))
                     i += 1
+                    emit('opt', name, args[i - 1], name, i + 1)
                 else:
-                    ev.append((miss, None))
-                    flags.add('missing')
+                    emit('missing', name, None, name, i + 1)
             elif eq:
-                ev.append(('?', None))
-                flags.add('unwanted')
+                emit('unwanted', name, None, name, i + 1)
             else:
-                ev.append((name, None))
+                emit('opt', name, None, name, i + 1)
         else:
             pack = a[1:]
             i += 1
@@ -96,23 +157,23 @@ def model(tid, args, limit=-1):
             while j < len(pack):
                 name = '-' + pack[j]
                 j += 1
+                # inside a pack optind still designates the pack
+                here = i if j < len(pack) else i + 1
                 if name not in opts:
-                    ev.append(('?', None))
-                    flags.add('unknown')
+                    emit('unknown', None, None, name, here)
                 elif opts[name]:
                     if j < len(pack):
-                        ev.append((name, pack[j:]))
+                        emit('opt', name, pack[j:], name, i + 1)
                         flags.add('packarg')
                         j = len(pack)
                     elif i < n:
-                        ev.append((name, args[i]))
                         flags.add('nextarg:' + ('opt' if args[i].startswith('-') else 'plain'))
                         i += 1
+                        emit('opt', name, args[i - 1], name, i + 1)
                     else:
-                        ev.append((miss, None))
-                        flags.add('missing')
+                        emit('missing', name, None, name, i + 1)
                 else:
-                    ev.append((name, None))
+                    emit('opt', name, None, name, here)
     return ev, i + 1, flags
 
 
@@ -130,16 +191,38 @@ def dec_argv(spec):
     return ['' if t == '_' else bytes.fromhex(t).decode('latin-1') for t in spec.split(',')]
 
 
-def expect(tid, args):
+def fmt_event(T, e):
+    """What the driver records for this event in table T."""
+    kind, name, arg, ch, optind = e
+
+    def rich(prefix):
+        return '%s%s%s@%d' % (prefix, enc_arg(ch), '' if arg is None else '=' + enc_arg(arg), optind)
+
+    def default():
+        return rich('?') if T.rich else '?'
+
+    if kind == 'opt':
+        if name in T.tail:
+            return rich('?')
+        return '%s=%s' % (name, enc_arg(arg)) if T.opts[name] else name
+    if kind == 'missing' and T.missing and not T.mtail:
+        return rich(':') if T.rich else ':'
+    return default()
+
+
+def nwarn(T, ev, opterr):
+    """One line on stderr per rejected option, unless opterr is zero or the
+    table has a GETOPT_MISSING_ARG label."""
+    if not opterr or T.missing:
+        return 0
+    return sum(1 for e in ev if e[0] != 'opt')
+
+
+def expect(tid, args, opterr=0):
     ev, optind, flags = model(tid, args)
-    parts = []
-    for label, arg in ev:
-        opts = TABLES[tid][0]
-        if label in opts and opts[label]:
-            parts.append('%s=%s' % (label, enc_arg(arg)))
-        else:
-            parts.append(label)
-    return '%s %d' % (','.join(parts) if parts else '-', optind), ev, flags
+    T = TABLES[tid]
+    parts = [fmt_event(T, e) for e in ev]
+    return '%s %d %d' % (','.join(parts) if parts else '-', optind, nwarn(T, ev, opterr)), ev, flags
 
 
 # --------------------------------------------------------------------------
@@ -147,7 +230,7 @@ def expect(tid, args):
 # --------------------------------------------------------------------------
 
 def alphabet(tid, reduced=False):
-    opts, _ = TABLES[tid]
+    opts = TABLES[tid].opts
     shorts = [o for o in opts if not o.startswith('--')]
     longs = [o for o in opts if o.startswith('--')]
     sa = [o for o in shorts if opts[o]]
@@ -196,7 +279,7 @@ def rand_args(rnd, tid, maxlen=8):
     al = alphabet(tid)
     n = rnd.randrange(0, maxlen + 1)
     out = []
-    opts = TABLES[tid][0]
+    opts = TABLES[tid].opts
     names = list(opts) or ['-q']
     for _ in range(n):
         r = rnd.random()
@@ -218,8 +301,8 @@ def nontrivial(flags):
 
 
 def mk_case(rnd, tid, args, kind='getopt', with_prev=True):
-    exp, ev, flags = expect(tid, args)
-    opterr = 1 if rnd.random() < 0.1 else 0
+    opterr = 1 if rnd.random() < 0.3 else 0
+    exp, ev, flags = expect(tid, args, opterr)
     line = 'G %d %d %s' % (tid, opterr, enc_argv(args))
     if with_prev:
         ptid = rnd.randrange(len(TABLES))
@@ -227,9 +310,15 @@ def mk_case(rnd, tid, args, kind='getopt', with_prev=True):
         pev, _, _ = model(ptid, pargs)
         plimit = rnd.randrange(1, len(pev) + 1) if (pev and rnd.random() < 0.6) else -1
         line += ' %d %d %s' % (ptid, plimit, enc_argv(pargs))
-    labels = tuple(l for l, _ in ev)
+    flags = set(flags)
+    if exp.endswith(' 0'):
+        if opterr and ev and any(e[0] != 'opt' for e in ev):
+            flags.add('warnings_silenced_by_missing_arg')
+    else:
+        flags.add('warned')
+    labels = tuple((e[0], e[1]) for e in ev)
     return {'line': line, 'expect': exp, 'kind': kind,
-            'sig': sig(tid, labels, exp.rsplit(' ', 1)[1], tuple(sorted(flags))),
+            'sig': sig(tid, labels, exp.split(' ')[1], tuple(sorted(flags))),
             'nt': nontrivial(flags), 'flags': flags}
 
 
@@ -313,21 +402,40 @@ def _fresh(a):
 
 def _selftest():
     # tests/getopt/test_getopt.sh style expectations, from the header text
-    assert expect(0, ['-b', '-f', 'x', 'rest'])[0] == '-b,-f=78 4'
-    assert expect(0, ['-bfx', '--', '-b'])[0] == '-b,-f=78 3'
-    assert expect(0, ['--foo', '--', '--bar'])[0] == '--foo=2d2d,--bar 4'
-    assert expect(0, ['--foo=bar', '-', '-b'])[0] == '--foo=626172 2'
-    assert expect(0, ['--fo', 'x'])[0] == '? 2'
-    assert expect(0, ['--bar=1'])[0] == '? 2'
-    assert expect(0, ['-f'])[0] == '? 2'
-    assert expect(1, ['-ac'])[0] == '-a,: 2'
-    assert expect(2, ['--foobar', '--foo=', '--foob'])[0] == '--foobar,--foo=_,? 4'
-    assert expect(3, ['-zx', '-y'])[0] == '-z,-x=2d79 3'
+    def ex(tid, args, opterr=0):
+        return expect(tid, args, opterr)[0]
+    assert ex(0, ['-b', '-f', 'x', 'rest']) == '-b,-f=78 4 0'
+    assert ex(0, ['-bfx', '--', '-b']) == '-b,-f=78 3 0'
+    assert ex(0, ['--foo', '--', '--bar']) == '--foo=2d2d,--bar 4 0'
+    assert ex(0, ['--foo=bar', '-', '-b']) == '--foo=626172 2 0'
+    assert ex(0, ['--fo', 'x']) == '? 2 0'
+    assert ex(0, ['--fo', 'x'], 1) == '? 2 1'
+    assert ex(0, ['--bar=1'], 1) == '? 2 1'
+    assert ex(0, ['-f'], 1) == '? 2 1'
+    assert ex(1, ['-ac'], 1) == '-a,: 2 0'
+    assert ex(2, ['--foobar', '--foo=', '--foob']) == '--foobar,--foo=_,? 4 0'
+    assert ex(3, ['-zx', '-y']) == '-z,-x=2d79 3 0'
+    # compact tables: the shared default block sees (ch, optarg, optind)
+    h = enc_arg
+    assert ex(6, ['-x', 'val', 'op'], 1) == '?%s=%s@3 3 0' % (h('-x'), h('val'))
+    assert ex(6, ['-axval', '--xlong=v', '--xlong', '-n'], 1) == \
+        '-a,?%s=%s@2,?%s=%s@3,?%s=%s@5 5 0' % (h('-x'), h('val'), h('--xlong'), h('v'), h('--xlong'), h('-n'))
+    assert ex(6, ['-aqn', '--nope=v', '--all=1', '-x'], 1) == \
+        '-a,?%s@1,-n,?%s@3,?%s@4,?%s@5 5 4' % (h('-q'), h('--nope=v'), h('--all'), h('-x'))
+    assert ex(7, ['-h', '--help=v'], 1) == '?%s@2,?%s@3 3 1' % (h('-h'), h('--help'))
+    assert ex(8, ['--version=v', '-n'], 1) == '?%s@2,:%s@3 3 0' % (h('--version'), h('-n'))
+    assert ex(9, ['-ts', '--size'], 1) == '-t,-s=%s 3 0' % h('--size')
+    assert ex(9, ['--size'], 1) == '?%s@2 2 0' % h('--size')
+    assert ex(11, ['-ab'], 1) == '?%s@1,?%s@2 2 2' % (h('-a'), h('-b'))
+    assert ex(13, ['--raw', '--raw=1', '-ri'], 1) == '--raw,?%s@3,-r,:%s@4 4 0' % (h('--raw'), h('-i'))
 
 
 def build(ctx):
     objs = ctx.builder.lib('asan', SRCS)
     return ctx.builder.driver('c18', 'asan', ['c18_getopt.c'], objs, libs=())
+
+
+NOLD = 6        # tables 0..5: one block per label; 6..: compact layouts
 
 
 def plan_for(ctx):
@@ -337,10 +445,14 @@ def plan_for(ctx):
         for ln in (0, 1, 2):
             plan.append((tid, ln, False))
     if ctx.quick():
-        for tid in range(nt):
+        for tid in range(NOLD):
             plan.append((tid, 3, tid in (2,)))      # full alphabet except the largest one
             plan.append((tid, 4, True))
         plan.append((2, 3, True))
+        for tid in range(NOLD, nt):
+            plan.append((tid, 3, len(alphabet(tid)) > 43))
+            if tid in (6, 9, 12):
+                plan.append((tid, 4, True))
     else:
         for tid in range(nt):
             plan.append((tid, 3, False))
@@ -365,8 +477,9 @@ def run(ctx):
     for r in res[:4]:
         for s in r['samples'][:2]:
             ctx.add_sample(s[:200])
-    ctx.cov['tables'] = ['%d: %s%s' % (i, ' '.join(o + (':' if h else '') for o, h in t[0].items()),
-                                       ' +MISSING_ARG' if t[1] else '') for i, t in enumerate(TABLES)]
+    ctx.cov['tables'] = ['%d: %s%s [%s]' % (i, ' '.join(o + (':' if h else '') for o, h in t.opts.items()),
+                                            ' +MISSING_ARG' if t.missing else '', t.layout)
+                         for i, t in enumerate(TABLES)]
     ctx.cov['alphabet_sizes'] = {str(i): [len(alphabet(i)), len(alphabet(i, True))]
                                  for i in range(len(TABLES))}
     ctx.cov['exhaustive_plan'] = ['table %d length %d %s alphabet' % (t, l, 'reduced' if r else 'full')
